@@ -151,22 +151,39 @@ class SymEnv(_EnvBase):
         self.ctx.inputs.append((name, "bytes", [x.ubits(8) if isinstance(x, SxInt) else z3.BitVecVal(x, 8) for x in b.bs]))
         return b
 
-    def chars(self, name, n, alphabet=None):
-        """text of n characters; alphabet=None -> arbitrary code points 0..0x10ffff"""
+    def chars(self, name, n, alphabet=None, mode="int", lo=0, hi=0x10ffff):
+        """text of n characters; alphabet=None -> arbitrary code points lo..hi.
+        mode 'bv': indexes / code points are bit-vectors (needed when the code does bit operations on them)"""
         items = []
         vs = []
         for i in range(n):
+            nm = "%s_%d" % (name, i)
             if alphabet is None:
-                v = z3.Int("%s_%d" % (name, i))
-                self.ctx.add(v >= 0, v <= 0x10ffff)
-                items.append(SxChar(None, SxInt(v, 0, 0x10ffff)))
-                vs.append(v)
+                if mode == "bv":
+                    w = max(hi.bit_length(), 1)
+                    v = z3.BitVec(nm, w)
+                    self.ctx.add(z3.UGE(v, lo), z3.ULE(v, hi))
+                    items.append(SxChar(None, SxInt.bv(z3.ZeroExt(1, v), lo, hi)))
+                    vs.append(z3.BV2Int(v))
+                else:
+                    v = z3.Int(nm)
+                    self.ctx.add(v >= lo, v <= hi)
+                    items.append(SxChar(None, SxInt(v, lo, hi)))
+                    vs.append(v)
             else:
-                v = z3.Int("%s_%d" % (name, i))
-                self.ctx.add(v >= 0, v < len(alphabet))
-                ch = SxChar(alphabet, SxInt(v, 0, len(alphabet) - 1))
+                if mode == "bv":
+                    w = max((len(alphabet) - 1).bit_length(), 1)
+                    v = z3.BitVec(nm, w)
+                    if len(alphabet) != (1 << w):
+                        self.ctx.add(z3.ULT(v, len(alphabet)))
+                    ch = SxChar(alphabet, SxInt.bv(z3.ZeroExt(1, v), 0, len(alphabet) - 1))
+                else:
+                    v = z3.Int(nm)
+                    self.ctx.add(v >= 0, v < len(alphabet))
+                    ch = SxChar(alphabet, SxInt(v, 0, len(alphabet) - 1))
                 items.append(ch)
-                vs.append(ch.code().to_int_mode().e if isinstance(ch.code(), SxInt) else z3.IntVal(ch.code()))
+                cd = ch.code()
+                vs.append((cd.to_int_mode().e if isinstance(cd, SxInt) else z3.IntVal(cd)))
         self.ctx.inputs.append((name, "str", vs))
         self._pin(name, "str", vs)
         return SxStr(items) if n else ""
@@ -277,8 +294,8 @@ class ConcEnv(_EnvBase):
     def bytes_of(self, name, bits):
         return self.bytes(name, bits // 8)
 
-    def chars(self, name, n, alphabet=None):
-        s = self._get(name, (alphabet[0] if alphabet else "a") * n) if n else ""
+    def chars(self, name, n, alphabet=None, mode="int", lo=0, hi=0x10ffff):
+        s = self._get(name, (alphabet[0] if alphabet else chr(max(lo, 97) if lo <= 97 <= hi else lo)) * n) if n else ""
         assert len(s) == n
         return s
 
